@@ -13,3 +13,25 @@ class Node():
 
     def is_bottom(self):
         return False
+
+
+# Verification hook (guarded, inactive unless HEPHAESTUS_VERIF=1): give nodes a
+# deterministic identity hash (creation order) so that sets and dicts of
+# identity-hashed nodes iterate in a reproducible order and a fixed seed
+# reproduces the same program.
+import os as _os  # noqa: E402
+if _os.environ.get("HEPHAESTUS_VERIF") == "1":
+    import itertools as _itertools
+
+    _verif_ids = _itertools.count(1)
+
+    def _verif_new(cls, *args, **kwargs):
+        obj = object.__new__(cls)
+        obj.__dict__["_verif_id"] = next(_verif_ids)
+        return obj
+
+    def _verif_hash(self):
+        return self.__dict__.get("_verif_id", 0)
+
+    Node.__new__ = _verif_new
+    Node.__hash__ = _verif_hash
